@@ -8,12 +8,15 @@
      Model/Tls.v              client_handshake on the GENERATED version / mode tables (C09)
 
    p4's model has ONE event for "the connection attempt yields" (EvConnect ok). Here it is refined
-   for TLS clients: the TCP connect yields (CTcp), then the task is parked in
-   `connection_handler.handle(stream, ..).await` - it polls neither the command queue, nor a timer,
-   nor the Modbus reader - until the handshake future resolves (CHandshake); the result is fed to
-   p4's step as EvConnect true (run_connection) or EvConnect false (handle_failed_connection).
-   Everything else is p4's step, unchanged. As in the code, the handshake await is NOT raced with
-   the command queue. Definitions only; proofs in Proofs/ClientFrontProofs.v. *)
+   for TLS clients: the TCP connect yields (CTcp), then the task waits in `establish`: a select!
+   between `connection_handler.handle(stream, ..)` and `client_loop.fail_requests()` - exactly what
+   p4's Connecting phase does for the TCP connect: queued requests fail fast, Disable / Shutdown end
+   the attempt (dropping the socket) - until the handshake future resolves (CHandshake); the result
+   is fed to p4's step as EvConnect true (run_connection) or EvConnect false
+   (handle_failed_connection). Everything else is p4's step, unchanged.
+   (Before repo fix "a TLS client waiting in its handshake ignored shutdown, disable and queued
+   requests" the handshake await was not raced with the command queue.)
+   Definitions only; proofs in Proofs/ClientFrontProofs.v. *)
 From Coq Require Import NArith List Bool.
 From Rodbus Require Import Model.Retry Spec.Lifecycle Spec.ClientSpec Gen.SessionErrors Model.ClientTask
   Spec.TlsSpec Gen.TlsVersions Gen.TlsModes Model.Tls.
@@ -42,13 +45,6 @@ Inductive cevent :=
 | CTcp (ok : bool) (k : server_kind)         (* host.connect() yields *)
 | CHandshake.                                (* connection_handler.handle(..) resolves *)
 
-(* events of the environment (they do not need the task to poll anything) *)
-Definition is_env (e : ClientTask.event) : bool :=
-  match e with
-  | EvSubmit _ _ | EvDropHandle | EvTick _ | EvFailWrite | EvWriteDelay _ | EvAbort => true
-  | _ => false
-  end.
-
 Section Front.
 Variable cfg : ClientTask.config.
 Variable tr : ctransport.
@@ -65,16 +61,13 @@ Definition cstep (f : cfront) (e : cevent) : cfront * list ClientTask.output :=
   match e with
   | CE (EvConnect _) => (f, [])                      (* refined into CTcp / CHandshake *)
   | CE ev =>
-      match hs f with
-      | Some k =>
-          if is_env ev then
-            let '(s', o) := ClientTask.step cfg (core f) ev in
-            ({| core := s'; hs := match ev with EvAbort => None | _ => hs f end; last_server := last_server f |}, o)
-          else (f, [])                               (* parked in the handshake await: nothing is polled *)
-      | None =>
-          let '(s', o) := ClientTask.step cfg (core f) ev in
-          ({| core := s'; hs := None; last_server := last_server f |}, o)
-      end
+      (* while the handshake is pending the task is in p4's Connecting phase (select! with fail_requests);
+         if the step leaves that phase (Disable, Shutdown, all handles dropped, abort) the handshake future
+         - and with it the socket - is dropped *)
+      let '(s', o) := ClientTask.step cfg (core f) ev in
+      ({| core := s';
+          hs := match hs f, ph s' with Some k, PConnecting => Some k | _, _ => None end;
+          last_server := last_server f |}, o)
   | CTcp ok k =>
       match hs f, ph (core f) with
       | None, PConnecting =>
